@@ -58,10 +58,23 @@ def sketches(tier):
     return out
 
 
+# environments with their standard optional arguments: nothing of the arguments may show
+EXTRA = {
+    'minipage_pos': ['cat', A, ' ', ['G', '\\begin{minipage}[t]{0.5\\textwidth}', None], '\n', B, '\n',
+                     ['G', '\\end{minipage}', None], ' ', A],
+    'minipage_three_opts': ['cat', A, ' ', ['G', '\\begin{minipage}[c][3cm][t]{5cm}', None], '\n', B, '\n',
+                            ['G', '\\end{minipage}', None], ' ', A],
+    'tabular_pos': ['cat', A, ' ', ['G', '\\begin{tabular}[t]{ll}', None], T('a'), ' ', ['special', '&'],
+                    ' ', B, ['G', '\\end{tabular}', None], ' ', A],
+}
+
+
 def items(tier, seed):
     tw = {'h': 'fam', 'name': 'twin', 'spec': family.doc(family.ATOMS[0]), 'tag': 'C03',
           'twin': True}
-    return fc.items(tier, seed, 'C03', [tw]) + sketches(tier)
+    ex = [{'h': 'fam', 'name': 'extra:' + n, 'spec': sp, 'tag': 'C03', 'opts': {}}
+          for n, sp in EXTRA.items()]
+    return fc.items(tier, seed, 'C03', [tw] + ex) + sketches(tier)
 
 
 def run_item(item):
